@@ -3,8 +3,8 @@ import re, runner, domfam
 
 def main(tier, seed, t0, only=None):
     q = tier == 'quick'
-    plan = [(1, 3, 0, 0, 4), (1, 3, 0, 1, 4), (1, 0, 17, 0, 2), (2, 0, 0, 0, 16)]
-    if not q: plan += [(2, 2, 0, 0, 16), (2, 1, 0, 0, 16), (2, 0, 0, 1, 16)]
+    plan = [(1, 3, 0, 0, 8), (1, 3, 0, 1, 8), (1, 0, 17, 0, 2), (1, 1, 17, 0, 2)]
+    if not q: plan += [(2, 0, 0, 0, 16), (2, 2, 0, 0, 16), (2, 1, 0, 0, 16), (2, 0, 0, 1, 16)]
     J = domfam.jobs('C06', 8, tier, plan=plan)
     if only: J = [j for j in J if re.search(only, j.name)]
     res = runner.run_jobs(J)
